@@ -194,7 +194,7 @@ func (w *World) checkSingleCriterion(fn *ssa.Function, cs *cmpShaper, depth int)
 		}
 		if c, ok := v.(*ssa.Call); ok {
 			// a helper that receives both elements: analysed with its parameters bound
-			if g := c.Call.StaticCallee(); g != nil && g.Pkg != nil && g.Pkg.Pkg.Path() == twigPath && len(g.Blocks) > 0 && ma && mb {
+			if g := c.Call.StaticCallee(); g != nil && isTwigFn(g) && len(g.Blocks) > 0 && ma && mb {
 				sub := &cmpShaper{env: map[ssa.Value]string{}}
 				for k, p := range g.Params {
 					if k < len(c.Call.Args) {
@@ -411,7 +411,7 @@ func (w *World) sortSiteOf(c *ssa.Call) (*sortSite, bool) {
 			break
 		}
 		g := call.Call.StaticCallee()
-		if g == nil || g.Pkg == nil || g.Pkg.Pkg.Path() != twigPath || len(g.Blocks) == 0 || len(call.Call.Args) != 2 || len(g.Params) != 2 {
+		if g == nil || !isTwigFn(g) || len(g.Blocks) == 0 || len(call.Call.Args) != 2 || len(g.Params) != 2 {
 			break
 		}
 		isIn := func(v ssa.Value, set []ssa.Value) bool {
